@@ -17,6 +17,7 @@ from . import core
 from .core import Sim, Violation, SimDeadlock, SimBudget, ReplayDiverged
 
 VERIF = os.path.dirname(os.path.dirname(os.path.abspath(__file__)))
+OUT = os.environ.get("VERIF_OUT") or VERIF   # evidence/ and replays/ go here
 SEED_MULT = 1_000_003
 
 
@@ -299,7 +300,7 @@ def shrink(mod, seed, sparse, fp, budget_runs=200, budget_s=90.0):
 
 def write_replay(pid, seed, sparse, fp, message, digest, trace_tail, details=None,
                  directory=None, name=None):
-    d = directory or os.path.join(VERIF, "replays")
+    d = directory or os.path.join(OUT, "replays")
     os.makedirs(d, exist_ok=True)
     path = os.path.join(d, name or "%s-%d-%s.json" % (pid, seed, fp_str(fp)))
     with open(path, "w") as f:
@@ -448,7 +449,7 @@ def write_evidence(mod, pid, tier, seed, agg, wall_s, known_hit, new_violations,
         "wall_s": round(wall_s, 2),
         "violations": len(new_violations),
     }
-    d = os.path.join(VERIF, "evidence")
+    d = os.path.join(OUT, "evidence")
     os.makedirs(d, exist_ok=True)
     with open(os.path.join(d, pid + ".json"), "w") as f:
         json.dump(ev, f, indent=1, default=repr)
